@@ -192,7 +192,7 @@ func c01Topics(depth int) []string {
 }
 
 func TestC01(t *testing.T) {
-	r := evid.New("C01", "exhaustive: every valid filter of depth<=3 over levels {a,b,'',$x,$SYS,+} with optional trailing # (plain, under $share/g/, and inline) x every topic name of depth<=3 over {a,b,'',$x,$SYS}, one subscription at a time; rapid: 1-8 subscriptions of 3 clients, 2 share groups and 3 inline ids at depth<=6 with subscribe/unsubscribe churn, 1-5 topics; expected sets from reftopic.Match, compared in both directions; non-trivial = expected set neither empty nor everything (random) / filter has a wildcard, '$' or empty level (exhaustive); distinct by (sorted subscription set, topic)")
+	r := evid.New("C01", "exhaustive: every valid filter of depth<=3 over levels {a,b,'',$x,$SYS,+} with optional trailing # (plain, under $share/g/, and inline) x every topic name of depth<=3 over {a,b,'',$x,$SYS}, one subscription at a time; rapid: 1-8 subscriptions of 3 clients, 2 share groups and 3 inline ids at depth<=6 with subscribe/unsubscribe churn (removals also requested by clients / ids that may not hold the subscription), 1-5 topics, half of them derived from a subscribed filter; expected sets from reftopic.Match, compared in both directions; non-trivial = expected set neither empty nor everything (random) / filter has a wildcard, '$' or empty level (exhaustive); distinct by (sorted subscription set, topic)")
 	defer r.Finish(t)
 	if evid.ReplayMode() {
 		evid.Replay(t, r, replayPath(), c01Check)
@@ -276,11 +276,42 @@ func TestC01(t *testing.T) {
 			if rapid.IntRange(0, 3).Draw(rt, "churn") == 0 {
 				u := c.Ops[rapid.IntRange(0, len(c.Ops)-1).Draw(rt, "which")]
 				u.Unsub = true
+				if rapid.IntRange(0, 2).Draw(rt, "foreign") == 0 {
+					// ... or somebody who may not hold it asks for its removal: nobody else's entry may go
+					if u.Kind == "inline" {
+						u.ID = rapid.IntRange(1, 3).Draw(rt, "uid")
+					} else {
+						u.Client = rapid.SampledFrom([]string{"c1", "c2", "c3"}).Draw(rt, "uclient")
+					}
+				}
 				c.Ops = append(c.Ops, u)
 			}
 		}
 		nt := rapid.IntRange(1, 5).Draw(rt, "ntopics")
 		for i := 0; i < nt; i++ {
+			if rapid.Bool().Draw(rt, "derived") {
+				// a topic derived from one of the filters (wildcards replaced), so that matches are not left to chance
+				f := c.Ops[rapid.IntRange(0, len(c.Ops)-1).Draw(rt, "from")].Filter
+				if _, rest, shared, ok := reftopic.SplitShare(f); shared && ok {
+					f = rest
+				}
+				ls := reftopic.Levels(f)
+				var out []string
+				for _, l := range ls {
+					switch l {
+					case "+":
+						out = append(out, rapid.SampledFrom([]string{"a", "b", "", "$x"}).Draw(rt, "plus"))
+					case "#":
+						out = append(out, rapid.SliceOfN(rapid.SampledFrom([]string{"a", "b", ""}), 0, 2).Draw(rt, "hash")...)
+					default:
+						out = append(out, l)
+					}
+				}
+				if tp := strings.Join(out, "/"); tp != "" && len(out) > 0 {
+					c.Topics = append(c.Topics, tp)
+					continue
+				}
+			}
 			c.Topics = append(c.Topics, genTopic(rt))
 		}
 		r.Sample(c)
